@@ -375,7 +375,16 @@ def screen_streams(draw):
         else:
             cmds.append(['bytes', [5] + [d.int(0, 255) for _ in range(wd * ht)]])
     stream = [b for c in cmds for b in c[1]]
-    return {'kind': 'screen', 'w': w, 'stream': stream, 'mem': sorted(mem_bytes.items()), 'png': d.pct() < 20}
+    case = {'kind': 'screen', 'w': w, 'stream': stream, 'mem': sorted(mem_bytes.items()), 'png': d.pct() < 20}
+    if d.pct() < 25:
+        # the device object was used before, attached to a memory of another width: a complete earlier session
+        # (configure + palette / screen update with w0/8 address bytes), then attach_memory() of this case's memory
+        w0 = d.choice([x for x in (16, 32, 64) if x != w])
+        pw, ph = d.choice([1, 2, 3]), d.choice([1, 2])
+        pre = [1] + list(struct.pack('<HHBH', pw, ph, 8, d.choice([0, 1, 2])))
+        pre += [d.choice([2, 3])] + list((d.int(0, 20) * 2 * w0).to_bytes(w0 // 8, 'little'))
+        case['pre'] = {'w0': w0, 'stream': pre}
+    return case
 
 
 def run_screen(case):
@@ -400,7 +409,15 @@ def run_screen(case):
 
     def rb(op_addr):
         return (words.get((op_addr >> ww) + 1, 0) >> (ww + 1)) & 0xFF
-    ref = RefScreen(w, rb)
+    pre = case.get('pre')
+    if pre:
+        # the earlier session ran against an all-zero memory of width w0
+        ref = RefScreen(pre['w0'], lambda op_addr: 0)
+        if ref.feed(pre['stream']) is not None:
+            return Discard('earlier session malformed')
+        ref.ab, ref.dw, ref.rb = w // 8, 2 * w, rb
+    else:
+        ref = RefScreen(w, rb)
     bad = ref.feed(case['stream'])
     import tempfile
     import shutil
@@ -409,8 +426,25 @@ def run_screen(case):
         from pathlib import Path
         frames_dir = Path(tempfile.mkdtemp(prefix='png.', dir=str(engines.tmpdir())))
     scr = InMemoryScreen(frames_dir=frames_dir)
-    scr.attach_memory(DictMemory())
     cl = ['family=screen', 'w=%d' % w]
+    if pre:
+        class ZeroMemory(DeviceMemory):
+            memory_width = pre['w0']
+
+            def read_word(self, word_address):
+                return 0
+
+            def write_word(self, word_address, value):
+                pass
+        scr.attach_memory(ZeroMemory())
+        try:
+            for byte in pre['stream']:
+                for b in range(8):
+                    scr.write_bit(bool((byte >> b) & 1))
+        except Exception as e:  # noqa
+            return Violation('c19:screen:earlier-session-raises:' + type(e).__name__, {'exc': repr(e)[:200], 'pre': pre}, cl)
+        cl.append('device re-attached to a memory of another width')
+    scr.attach_memory(DictMemory())
     failed_at = None
     for i, byte in enumerate(case['stream']):
         try:
